@@ -88,14 +88,18 @@ def history_differs(cls, method, args, kw, primers):
     """True if method(*args, **kw) on an instance that first executed the primer calls [(method, args, kw), ...] differs
     bit-wise from the same call on a fresh instance ("irrespective of earlier calls")"""
     ref = getattr(fresh(cls), method)(*args, **kw)
-    used = fresh(cls)
-    for m, pa, pk in primers:
-        try:
-            getattr(used, m)(*pa, **pk)
-        except Exception:  # noqa: BLE001
-            pass
-    got = getattr(used, method)(*args, **kw)
-    return not bits_equal(ref, got)
+    # the whole sequence, and each primer alone as the immediately preceding call (a one-slot cache is evicted by the next primer)
+    for seq in [primers] + ([[p] for p in primers] if len(primers) > 1 else []):
+        used = fresh(cls)
+        for m, pa, pk in seq:
+            try:
+                getattr(used, m)(*pa, **pk)
+            except Exception:  # noqa: BLE001
+                pass
+        got = getattr(used, method)(*args, **kw)
+        if not bits_equal(ref, got):
+            return True
+    return False
 
 
 _API = None
@@ -128,3 +132,25 @@ def keyword_call_differs(obj, entry, args, kw, ref):
         return (f"{meth}: passing the arguments under their documented keyword names ({', '.join(named)}) gives a different result than "
                 "passing them positionally (an argument is swallowed by **kwargs)")
     return None
+
+
+def transform_primers(method, x, y, xo, dy_key=None, dy=None, kw=None):
+    """calls that an instance may have served before the call under test: the same arguments with every option switched on,
+    a look-alike input grid (same length and end points), a look-alike output grid, other data"""
+    kw = dict(kw or {})
+    base = dict(kw)
+    if dy_key and dy is not None:
+        base[dy_key] = dy
+    hot = dict(base, lorch=True, OmittedXrangeCorrection=True)
+    prim = [(method, (x, y, xo), hot)]
+    if len(x) >= 3:
+        prim.append((method, (x, y, xo), dict(hot, xmin=float(np.sort(x)[1]), xmax=float(np.sort(x)[-2]))))
+    x2 = confusable(x)
+    if x2 is not None:
+        prim.append((method, (x2, y, xo), base))
+        prim.append((method, (x2, y, xo), hot))
+    xo2 = confusable(xo)
+    if xo2 is not None:
+        prim.append((method, (x, y, xo2), base))
+    prim.append((method, (x, np.asarray(y, dtype=float) * 1.3 + 0.2, xo), base))
+    return prim
